@@ -58,6 +58,9 @@ class McResult:
                 self.counter_examples.append((kind, m2.group(1)))
                 kind = None
         self.crashed = (not self.ended) or r.rc < 0 or r.cpu_exceeded
+        # load, not a verdict: simgrid-mc gives its child 5 s of wall-clock time to connect; when that fails the checker
+        # bails out or dies of SIGPIPE on the socket of the child it killed
+        self.load_failure = "failed to connect within" in err or (r.rc == -13 and not self.ended)
 
     def tail(self, n=1200):
         lines = [l for l in self.r.err.splitlines() if "Configuration change" not in l]
